@@ -68,6 +68,7 @@ func genFault(g *Gen) {
 			l.start(1 + g.Rng.Intn(2))
 		}
 		pSweep := 35 + g.Rng.Intn(40)
+		impState, removed := 0, false
 		flush := func(p int) {
 			if !bg {
 				f.flush(p)
@@ -77,7 +78,10 @@ func genFault(g *Gen) {
 			// observations are `rec` ops; the sweeps carry the check (twin comparison)
 			r := f.g.Rng
 			f.rw.flush(func(op, body string) (string, string) {
-				if op == "recvtx" || isObservation([]string{op}) {
+				if op == "recvtx" || isObservation([]string{op}) || (op == "notify" && removed) {
+					// after a removal a block can run into C08's open defect D11 (a transaction record
+					// shared with another wallet is deleted with the removed wallet; a later rollback
+					// misses it): notifications are then executed but not compared with the model
 					return "rec", "rec " + body
 				}
 				if (op == "addr" || op == "notify") && r.Intn(100) < p {
@@ -95,7 +99,6 @@ func genFault(g *Gen) {
 			f.g.Stats["sweep-twin"]++
 		}
 		flush(pSweep)
-		impState, removed := 0, false
 		if bg {
 			f.rw.emit("mkimport", "mkimport WI 2")
 			impState = 1
